@@ -124,7 +124,11 @@ class OptionsContainer(ObjectWithFields):
                     continue
             except KeyError:
                 pass
-            destination[opt.cgi_name] = opt.to_string(value)
+            text = opt.to_string(value)
+            if text is None:
+                # see _generate_parameters_dict()
+                text = 'none'
+            destination[opt.cgi_name] = text
 
     def generate_cgi_parameters(self,
                                 destination: dict[str, str] | None = None,
